@@ -206,6 +206,7 @@ class GenCfg:
     const_factor_prob: float = 0.0
     mixing_prob: float = 0.25
     leaf_sum_prob: float = 0.3
+    kron_max_units: int = 2  # input units of binary Kronecker layers (K**2 outputs)
     twohead_prob: float = 0.12  # two sum layers over the same product layers
     shuffle_inputs_prob: float = 0.3  # product layers list their inputs in a random order
     leaf_mix_prob: float = 0.4  # a leaf sum layer mixes several input layers of its variable
@@ -368,7 +369,7 @@ class CircuitBuilder:
         kind = self._decide(reg.scope, "prod_kind", lambda: rng.choice(cfg.prod_kinds))
         max_arity = max(len(p) for p in reg.parts)
         if kind == "kronecker":
-            kc = 1 if max_arity >= 3 and rng.random() < 0.5 else rng.randint(1, 2)
+            kc = 1 if max_arity >= 3 and rng.random() < 0.5 else rng.randint(1, cfg.kron_max_units if max_arity <= 2 else 2)
             if kc**max_arity > 9:
                 kc = 1
         else:
